@@ -830,6 +830,10 @@ VIRT_OPS_DEPTH = ('{[op |-> "depths", sk |-> "", a |-> 0, b |-> 0, axis |-> 0], 
                   '{[op |-> "slice_json", sk |-> "range", a |-> p[1], b |-> p[2], axis |-> 0] : p \\in {<<-2, 99999>>, <<99999, -1>>, <<1, 99>>, <<-9, 2>>}}')
 
 
+PART_HLOPS = ('{"flatten0", "flatten1", "num0", "num1", "is_none", "fill_none", "count", "sum_none", "sum0", "ufunc", "mask", "local_index", '
+              '"pad_none", "firsts", "sort", "concat_self", "values_astype", "zip_self", "field", "packed"}')
+
+
 def run_C18(ctx):
     ctx.build("opt")
     q = ctx.quick()
@@ -851,7 +855,7 @@ def run_C18(ctx):
     ctx.tlc_phase("virtual-simulate", "Virtual", vc, invariants=["LazyUntilNeeded", "KeepGeneratesOnce", "NoStale", "HeldOnlyIfKeep"],
                   simulate="num=%d" % (5000 if q else 200000), depth=12, **kw)
     ctx.virtual_trace_phase("virtual-sessions-code-to-spec", 3000 if q else 60000)
-    pc = dict(PartN=str(3 if q else 4), PartMax="3", MaxSteps=str(2 if q else 3), EmitOn="TRUE",
+    pc = dict(PartN=str(3 if q else 4), PartMax="3", MaxSteps=str(2 if q else 3), EmitOn="TRUE", HLOps="{}",
               RangeSteps="{1, 2, 3, -1, -2}" if q else "{1, 2, -1}")
     pkw = dict(invariants=["LocateInRange", "Tiling"], init="PInit", next_="PNext",
                view="PView", action_constraints=["PEmit"], translate=("virtual", "steps_partition"),
@@ -860,9 +864,16 @@ def run_C18(ctx):
     # the same behaviours through ak.partitioned / ak.repartition of the repository's Python layer (src/awkward/partition.py)
     ctx.l2_phase("partitions-python-layer", "Partition", pc, ("l2replay", "h_c18_partition"), reuse=rp,
                  sample_cases=(20000 if q else 300000), **{k: v for k, v in pkw.items() if k not in ("translate", "judge_fn")})
+    # the library's high-level functions on a partitioned array (every splitting of 4 elements incl. empty partitions x one or two
+    # of them, the second one on the first one's partitioning after a repartition): same value as on the whole array, and a result
+    # that is consistent with itself (len, every item by position, is_valid)
+    ph = dict(PartN="4", PartMax="3", MaxSteps=str(2 if q else 3), EmitOn="TRUE", HLOps=PART_HLOPS, RangeSteps="{1}")
+    ctx.l2_phase("partitions-highlevel-functions", "Partition", ph, ("l2replay", "h_c18_partition"),
+                 sample_cases=(20000 if q else 300000), invariants=["LocateInRange", "Tiling"], init="PInit", next_="PNext", view="PView",
+                 action_constraints=["PEmit"], require_actions=["ChooseSplit", "HighLevel"])
     if not q:
         # longer arrays and larger strides: the phase (offset) a strided range carries from one partition into the next
-        pc = dict(PartN="6", PartMax="3", MaxSteps="2", EmitOn="TRUE", RangeSteps="{1, 3, 4, 5, -2, -3}")
+        pc = dict(PartN="6", PartMax="3", MaxSteps="2", EmitOn="TRUE", HLOps="{}", RangeSteps="{1, 3, 4, 5, -2, -3}")
         ctx.tlc_phase("partitions-strided-ranges", "Partition", pc, **pkw)
     return ctx.finish(rule="case = one behaviour: (cache kind, generator behaviour, declarations) + an interleaving of operations and evictions on "
                            "a VirtualArray (alone or as the content of a list node), or one splitting + operations/repartitionings of an "
